@@ -457,6 +457,55 @@ func (n *Node) Canonical() bool {
 	return true
 }
 
+// NonDER describes the first non-DER form found in n or a descendant (including the nodes inside
+// encapsulating OCTET/BIT STRINGs): non-minimal or indefinite length, padded or forced high-tag form,
+// non-minimal INTEGER/ENUMERATED content, BOOLEAN content other than 00/ff, or a constructed encoding of a
+// primitive universal type. It returns "" when none is found. Content rules beyond these (SET ordering,
+// DEFAULT values, string alphabets, time formats) are not examined.
+func (n *Node) NonDER() string {
+	if n.Literal != nil {
+		return ""
+	}
+	switch {
+	case n.Indef:
+		return "indefinite-length"
+	case n.LenOctets != 0:
+		return "non-minimal-length"
+	case n.HighTag || n.TagPad != 0:
+		return "non-minimal-tag"
+	}
+	if n.Class == ClassUniversal {
+		switch n.Tag {
+		case TagInteger, TagEnum:
+			if n.Constructed {
+				return "constructed-primitive"
+			}
+			c := n.Content
+			if len(c) == 0 || len(c) > 1 && (c[0] == 0 && c[1]&0x80 == 0 || c[0] == 0xff && c[1]&0x80 != 0) {
+				return "non-minimal-integer"
+			}
+		case TagBoolean:
+			if n.Constructed {
+				return "constructed-primitive"
+			}
+			if len(n.Content) != 1 || n.Content[0] != 0 && n.Content[0] != 0xff {
+				return "non-der-boolean"
+			}
+		case TagBitString, TagOctetString, TagNull, TagOID, TagUTF8String, TagNumericString, TagPrintableString, TagT61String,
+			TagIA5String, TagUTCTime, TagGeneralizedTime, TagVisibleString, TagGeneralString, TagUniversalString, TagBMPString:
+			if n.Constructed {
+				return "constructed-primitive"
+			}
+		}
+	}
+	for _, k := range n.Children {
+		if d := k.NonDER(); d != "" {
+			return d
+		}
+	}
+	return ""
+}
+
 // Walk calls f for n and every descendant (parents first). depth starts at 0.
 func (n *Node) Walk(f func(n, parent *Node, idx, depth int)) { n.walk(nil, 0, 0, f) }
 
